@@ -48,6 +48,9 @@ type constructorNode struct {
 	// Whether the constructor owned by this node was already called.
 	called bool
 
+	// Whether the constructor is being built right now.
+	onStack bool
+
 	// Type information about constructor parameters.
 	paramList paramList
 
@@ -144,6 +147,16 @@ func (n *constructorNode) Call(c containerStore) (err error) {
 	if n.called {
 		return nil
 	}
+
+	if n.onStack {
+		return newErrInvalidInput("cycle detected in dependency graph",
+			errCycleDetected{
+				Path:  []cycleErrPathEntry{{Key: key{t: n.CType()}, Func: n.Location()}},
+				scope: n.s,
+			})
+	}
+	n.onStack = true
+	defer func() { n.onStack = false }()
 
 	if err := shallowCheckDependencies(c, n.paramList); err != nil {
 		return errMissingDependencies{
